@@ -368,8 +368,8 @@ impl Check for PrefixCheck {
 
     fn budget(_id: &str, tier: Tier) -> Budget {
         match tier {
-            Tier::Quick => Budget { cases: 30_000, max_bytes: 500 },
-            Tier::Thorough => Budget { cases: 400_000, max_bytes: 900 },
+            Tier::Quick => Budget { cases: 120_000, max_bytes: 500 },
+            Tier::Thorough => Budget { cases: 1_500_000, max_bytes: 900 },
         }
     }
 
